@@ -15,11 +15,11 @@ ENTRY = dict(
     clauses={
         "only protocol errors / end of stream": "theorem for the model + correspondence (exception classes of the implementation)",
         "at least one byte per call": "theorem (C14.progress)",
-        "never waits for more than the maximum frame size": "theorem (C14.bounded_consumption, never_waits_beyond_max) + correspondence (buffer level while blocked)",
+        "never waits for more than the maximum frame size": "theorem (C14.bounded_consumption, never_waits_beyond_max) + correspondence (per call: bytes taken from its start delimiter <= 1000; while a call still waits, fewer than 1000 bytes counted from its first start delimiter have ARRIVED, consumed or not; noise includes idle / stuck lines over 1-3 byte values after a plausible header, longer than the maximum frame and than the 64 KiB stream buffer limit)",
         "producer loop keeps running": "theorem (C09Producer.producer_continues, stops_only_on_loss, producer_survives_noise: for EVERY byte stream the producer machine makes every read() of readAll and ends only at the end of the stream / a timeout / a write loss — never on a protocol error) + correspondence (real AsyncProtocol.frame_producer vs the machine at every quiescent point, harness/producer.py)",
         "frames delivered after the noise reach the application (whole connection: producer and consumers), also when the noise contains checksum-valid stray frames from the non-controller addresses 0x00 / 0x56":
             "correspondence (default AsyncProtocol fed noise + strays + a run; expected count from the reader model `read`; that every frame the reader hands out is handled or contained without losing a consumer is C09.never_stalls / no_consumer_dies / delivered_exactly_once)",
-        "re-synchronisation after noise": "theorem under noInner68 (C14.resync_partial); full statement refuted (F2, C14.resync_full_false)",
+        "re-synchronisation after noise": "theorem under noInner68 (C14.resync_partial); full statement refuted (F2, C14.resync_full_false) + correspondence (runs of frames of every length 10..70, judged on every hand-over of the stream: all buffered at once and lazily in chunks; a lost run is tagged F2 only when the frame has an inner start delimiter AND the reader model loses the run on that very input)",
     },
     public_routes={
         "FrameReader.read() on a StreamReader (what DummyProtocol hands to the user: protocol.reader)": "driven + compared with the reader model and judged",
